@@ -367,3 +367,9 @@ Theorem C13_gen_reset_sorted_versions : forall cols r cells s m,
   | None => Exc TypeErr m
   end.
 Proof. exact gen_reset_sorted_versions_ok. Qed.
+
+(* SortKey.__lt__ (native comparison, the TypeError fallback on (is None, is Number, type name), the sign, the row id) *)
+Theorem C13_gen_sortkey_lt : forall va vb ascs ra rb,
+  gen_sortkey_lt va vb ascs ra rb tt =
+  match sortkey_lt va vb ascs ra rb with Some b => Ok b tt | None => Exc OtherErr tt end.
+Proof. exact gen_sortkey_lt_ok. Qed.
